@@ -10,7 +10,7 @@ from rv.harness import monitored_call, present
 LEVEL = "exploration"
 RULE = ("(a) random valid packing inputs with 1-3 oversize items inserted at every position class (first, middle, last, random), binsize 1..1000 (ints and dyadic), 7 presentations x 10 output "
         "types x 5 packers: the call must raise ValueError; (b) cbldm called with exactly one invalid argument (numbins in {0,1,3,4,7}, a negative item at any position, time_limit in {0,-1,-0.5}, "
-        "partition_difference in {0,-1,-5,0.5,1.5,2.0,3.0}) on otherwise valid inputs: must raise ValueError; (c) BinnerKeepingSums.numitems must raise; "
+        "partition_difference in {0,-1,-5,0.5,1.5,2.0,3.0,1e20, numpy 0 / -3 / 2.5 / 2.0}; time_limit also 0.0, -1e-9, -inf, numpy -2.0 / 0) on otherwise valid inputs: must raise ValueError; (c) BinnerKeepingSums.numitems must raise; "
         "non-trivial = oversize item not in first position and >= 2 valid items (a), any (b); distinct on the full case")
 ASSUMPTIONS = ["any return value (even a feasible-looking one) for such a request is a violation; so is an exception type other than ValueError"]
 FLOORS = {"quick": {"distinct_nontrivial": 5000, "cbldm_cases": 500}, "thorough": {"distinct_nontrivial": 25000, "cbldm_cases": 2500}}
@@ -21,6 +21,18 @@ def plan(tier, seed):
     n = 16 if tier == "quick" else 64
     b = 15 if tier == "quick" else 50
     return [{"seed": seed * 1000 + i, "shard": i, "budget_s": b, "max_cases": 10 ** 7, "watchdog_s": b * 5 + 120} for i in range(n)]
+
+
+def decode_arg(v):
+    """JSON-able encodings of exotic argument values: 'np:<x>' = numpy scalar (int64 if integral text, float64 otherwise), '-inf'."""
+    import numpy as np
+    if isinstance(v, str):
+        if v == "-inf":
+            return float("-inf")
+        if v.startswith("np:"):
+            t = v[3:]
+            return np.float64(t) if ("." in t or "e" in t) else np.int64(t)
+    return v
 
 
 def judge(case, ctx):
@@ -46,7 +58,7 @@ def judge(case, ctx):
         ctx.counters["cbldm_cases"] += 1
         prng = random.Random(case["pres_seed"])
         items, valueof, names, vmap = present(case["values"], case["pres"], prng)
-        kw = dict(case["kwargs"])
+        kw = {k_: decode_arg(v_) for k_, v_ in case["kwargs"].items()}
         r = monitored_call(A.prtpy.partition, A.partitioners["cbldm"], case["k"], items, valueof, A.outputtypes[case["ot"]], ctx=ctx, **kw)
         if r.timeout:
             ctx.inconc("timeout", case)
@@ -89,9 +101,9 @@ def draw(rng, i):
         elif which == "negative_item":
             case["values"][rng.randrange(n)] = -rng.randint(1, 20)
         elif which == "time_limit":
-            case["kwargs"]["time_limit"] = rng.choice([0, -1, -0.5])
+            case["kwargs"]["time_limit"] = rng.choice([0, -1, -0.5, 0.0, -1e-9, "-inf", "np:-2.0", "np:0"])
         else:
-            case["kwargs"]["partition_difference"] = rng.choice([0, -1, -5, 0.5, 1.5, 2.0, 3.0])
+            case["kwargs"]["partition_difference"] = rng.choice([0, -1, -5, 0.5, 1.5, 2.0, 3.0, "np:0", "np:-3", "np:2.5", "np:2.0", 10.0 ** 20])
         return case
     if i % 97 == 5:
         k = rng.randint(1, 5)
